@@ -198,6 +198,59 @@ fn take_back_and_drop(s: Slot) {
     }
 }
 
+// ---------------------------------------------------------------------------------------------
+// comparison / hashing / formatting through handles (C04: "never change the count, not even while the
+// borrow is in use"; C07: a panicking comparison / hash / format impl)
+struct NullW;
+impl std::fmt::Write for NullW { fn write_str(&mut self, _: &str) -> std::fmt::Result { Ok(()) } }
+
+fn ord_s(o: Option<std::cmp::Ordering>) -> &'static str {
+    match o { Some(std::cmp::Ordering::Less) => "lt", Some(std::cmp::Ordering::Equal) => "eq", Some(std::cmp::Ordering::Greater) => "gt", None => "none" }
+}
+
+/// every operation once unarmed (results), then once armed (each must unwind cleanly); returns
+/// (eq, partial_cmp, consistent?, number of armed operations that panicked)
+fn cmp_eq_dbg<X: PartialEq + std::fmt::Debug>(x: &X, y: &X) -> (bool, String, bool, usize) {
+    use std::fmt::Write;
+    let eq = lib(|| x == y);
+    let ne = lib(|| x != y);
+    let _ = lib(|| write!(NullW, "{:?}", x));
+    let mut np = 0;
+    cmp_arm(true);
+    if catch_unwind(AssertUnwindSafe(|| lib(|| x == y))).is_err() { np += 1; }
+    cmp_arm(true);
+    if catch_unwind(AssertUnwindSafe(|| lib(|| x != y))).is_err() { np += 1; }
+    cmp_arm(true);
+    if catch_unwind(AssertUnwindSafe(|| lib(|| write!(NullW, "{:?}", x)))).is_err() { np += 1; }
+    cmp_arm(false);
+    set_recording(false);
+    (eq, "-".into(), eq != ne, np)
+}
+fn cmp_full<X: PartialEq + Ord + std::hash::Hash + std::fmt::Debug>(x: &X, y: &X) -> (bool, String, bool, usize) {
+    use std::hash::Hasher;
+    let (eq, _, mut cons, mut np) = cmp_eq_dbg(x, y);
+    let pc = lib(|| x.partial_cmp(y));
+    let c = lib(|| x.cmp(y));
+    let (lt, le, gt, ge) = lib(|| (x < y, x <= y, x > y, x >= y));
+    let hash = |v: &X| { let mut h = std::collections::hash_map::DefaultHasher::new(); lib(|| v.hash(&mut h)); h.finish() };
+    let (hx, hy) = (hash(x), hash(y));
+    cons = cons && pc == Some(c) && (c == std::cmp::Ordering::Equal) == eq
+        && lt == (c == std::cmp::Ordering::Less) && gt == (c == std::cmp::Ordering::Greater) && le == !gt && ge == !lt && (!eq || hx == hy);
+    for k in 0..4 {
+        cmp_arm(true);
+        let r = catch_unwind(AssertUnwindSafe(|| lib(|| match k {
+            0 => { let _ = x.partial_cmp(y); }
+            1 => { let _ = x.cmp(y); }
+            2 => { let _ = x < y; }
+            _ => { let mut h = std::collections::hash_map::DefaultHasher::new(); x.hash(&mut h); }
+        })));
+        if r.is_err() { np += 1; }
+    }
+    cmp_arm(false);
+    set_recording(false);
+    (eq, ord_s(pc).into(), cons, np)
+}
+
 enum St { Ok(String), Bad }
 
 fn parse_u(s: &str) -> Option<usize> { s.parse().ok() }
@@ -362,6 +415,32 @@ fn run_op(w: &mut World, f: &[&str]) -> St {
             };
             w.slots[d] = c;
             St::Ok(String::new())
+        }
+        "cmp" if n == 3 => {
+            let a = idx!(f[1]); let b = idx!(f[2]);
+            let (sa, sb) = (&w.slots[a], &w.slots[b]);
+            macro_rules! probe { ($x:expr, $y:expr, $cnt:expr) => {{
+                let (px, py) = ($x as *const _ as usize, $y as *const _ as usize);
+                let _ = (px, py);
+                let (x, y) = ($x, $y);
+                // the probe reads the counts through raw pointers to the two handles, from inside the payload's trait method
+                let (rx, ry) = (x as *const _, y as *const _);
+                cmp_set_probe(Some(Box::new(move || unsafe { format!("{}.{}", $cnt(&*rx), $cnt(&*ry)) })));
+            }}; }
+            let r = match (sa, sb) {
+                (A(x), A(y)) => { probe!(x, y, |h: &Arc<T>| Arc::count(h)); let r = cmp_full(x, y); let r2 = cmp_eq_dbg(&x.borrow_arc(), &y.borrow_arc()); (r.0, r.1, r.2 && r2.2 && r.0 == r2.0, r.3 + r2.3) }
+                (AB(x), AB(y)) => { probe!(x, y, |h: &Arc<TB>| Arc::count(h)); cmp_full(x, y) }
+                (AS(x), AS(y)) => { probe!(x, y, |h: &Arc<[T]>| Arc::count(h)); cmp_full(x, y) }
+                (AH(x), AH(y)) => { probe!(x, y, |h: &Arc<HS>| Arc::count(h)); cmp_full(x, y) }
+                (AW(x), AW(y)) => { probe!(x, y, |h: &Arc<HWL>| Arc::count(h)); cmp_full(x, y) }
+                (Th(x), Th(y)) => { probe!(x, y, |h: &ThinArc<T, T>| ThinArc::strong_count(h)); cmp_full(x, y) }
+                (O(x), O(y)) => { probe!(x, y, |h: &OffsetArc<T>| OffsetArc::strong_count(h)); cmp_eq_dbg(x, y) }
+                (U(x), U(y)) => { probe!(x, y, |h: &ArcUnion<T, TB>| ArcUnion::strong_count(h)); cmp_eq_dbg(x, y) }
+                _ => { bad!() }
+            };
+            cmp_set_probe(None);
+            let (seen, calls) = cmp_take_seen();
+            St::Ok(format!("eq={};pc={};cons={};incb={};np={};calls={}", r.0, r.1, r.2, if seen.is_empty() { "-".to_string() } else { seen.join("|") }, r.3, calls))
         }
         "isUnique" if n == 2 => {
             let s = idx!(f[1]);
